@@ -632,7 +632,7 @@ struct WL {
         int n = 2 + gsim::gen_int(3);
         gsim::prog_reset(n);
         for (int t = 0; t < n; t++) {
-            int role = gsim::gen_int(4);  // 0 reader 1 writer 2 mixed 3 blipper
+            int role = t == 0 ? 1 + gsim::gen_int(2) : gsim::gen_int(4);  // 0 reader 1 writer 2 mixed 3 blipper
             int k = 1 + gsim::gen_int((c13 ? 5 : 4) + (gsim::thorough() ? 2 : 0));
             for (int i = 0; i < k; i++) {
                 int r = gsim::gen_int(100);
